@@ -177,12 +177,59 @@ Theorem C10_read_keeps_location : forall n circular ty l l',
 Proof. exact read_keeps_location. Qed.
 Print Assumptions C10_read_keeps_location.
 
-(* CDS features whose (start, length) sort keys strictly increase are re-added by add_cds_feature (bisect_left with
-   Feature.__lt__) in exactly the stored order: the CDS part of "the re-read record writes the same file" *)
+(* the repair of finding C10-F65 (unsortable_exon_order_accepted): every location Record.from_biopython lets into a
+   record - any feature type, topology, record length - has a sort key: when its exon order is not the strand's,
+   split_origin_bridging_location accepts it as a crossing of the origin.  (Before the repair forward
+   join(401..430,201..230,101..130) was accepted and had none.) *)
+Theorem C10_read_is_sortable : forall n circular ty l l', read_feature_loc n circular ty l = Ok l' ->
+  exists k, feature_key l' = Ok k.
+Proof. exact read_is_sortable. Qed.
+Print Assumptions C10_read_is_sortable.
+
+(* ... hence Feature.__lt__ (C04's feature_lt: either operand order, "source" or not) and CDSCollection.__lt__ against
+   a feature (C04's collection_lt) return an answer on any two locations accepted on reading, they do not raise:
+   sorted(self.all_features) in Record.to_biopython cannot fail with ValueError, the record can be written *)
+Theorem C10_read_features_compare : forall n c1 c2 ty1 ty2 l1 l2 a b,
+  read_feature_loc n c1 ty1 l1 = Ok a -> read_feature_loc n c2 ty2 l2 = Ok b ->
+  forall src, (exists r, C04.Model.feature_lt src a b = Ok r) /\ (exists r, C04.Model.collection_lt a b = Ok r).
+Proof. exact read_features_compare. Qed.
+Print Assumptions C10_read_features_compare.
+
+(* the witnesses of the former finding are refused on reading (SecmetInvalidInputError) - forward three exons in
+   descending order as misc_feature on a linear record (the location add_feature would hold has no key: Err E_Value),
+   reverse-strand three exons ascending on a circular record, mixed strands out of order - while what worked keeps
+   working: the reverse-strand gene on a linear record is reversed by add_gene, two exons in the other order are taken
+   for a crossing of the origin *)
+Theorem C10_read_unsortable_refused :
+  read_feature_added 600 false T_misc W_f3 = Ok W_f3 /\ feature_key W_f3 = Err E_Value /\
+  read_feature_loc 600 false T_misc W_f3 = Err E_SecmetInvalid /\
+  read_feature_loc 600 true 1 W_r3 = Err E_SecmetInvalid /\ read_feature_loc 600 true T_gene W_mix = Err E_SecmetInvalid /\
+  read_feature_loc 600 false T_gene W_r3 = Ok (rev W_r3) /\
+  read_feature_loc 600 false T_misc [mkPart 100 130 (-1); mkPart 400 430 (-1)] = Ok [mkPart 100 130 (-1); mkPart 400 430 (-1)].
+Proof. exact read_unsortable_refused. Qed.
+Print Assumptions C10_read_unsortable_refused.
+
+(* CDS features whose (start, length) sort keys never decrease - equal keys included since the repair of C10-F47 -
+   are re-added by add_cds_feature (bisect_right with Feature.__lt__) in exactly the stored order *)
 Theorem C10_cds_order_kept : forall locs keys, mapM feature_key locs = Ok keys ->
-  strictly_sorted C04.Model.pair_lt keys = true -> cds_reload locs = Ok locs.
+  weakly_sorted keys = true -> cds_reload locs = Ok locs.
 Proof. exact cds_order_kept. Qed.
 Print Assumptions C10_cds_order_kept.
+
+(* the repair of finding C10-F47 (equal_key_genes_order), no guard on the keys: whatever CDS features arrive in
+   whatever order, the list add_cds_feature has stored is re-read - re-added in stored order, which is the order
+   Record.to_biopython's stable sorted() writes them in - as exactly itself: the CDS part of "the first output is a
+   fixed point" *)
+Theorem C10_cds_reload_fixed_point : forall file stored, cds_reload file = Ok stored -> cds_reload stored = Ok stored.
+Proof. exact cds_reload_fixed_point. Qed.
+Print Assumptions C10_cds_reload_fixed_point.
+
+(* and re-adding does not raise when every location has a sort key, which C10_read_is_sortable guarantees for
+   everything read from a file *)
+Theorem C10_cds_reload_total : forall file, Forall (fun l => sortable l = true) file ->
+  exists stored, cds_reload file = Ok stored.
+Proof. exact cds_reload_total. Qed.
+Print Assumptions C10_cds_reload_total.
 
 (* alternative transcripts: two locations that do not cross the origin, with the same start (and possibly the same
    end) and different total exon length, have different sort keys - exactly one is less than the other *)
@@ -194,13 +241,13 @@ Theorem C10_alt_transcripts_ordered : forall a b, bridges a = false -> bridges b
 Proof. exact alt_transcripts_ordered. Qed.
 Print Assumptions C10_alt_transcripts_ordered.
 
-(* without "strictly": two CDS features with equal keys (same start, same total length; here [10:40](+) and
-   [10:40](-)) are stored in reverse order of arrival, so the stored order flips on every reload (known finding
-   equal_key_genes_order) *)
-Theorem C10_cds_order_equal_keys_refuted :
-  exists a b, feature_key a = feature_key b /\ cds_reload [a; b] = Ok [b; a] /\ cds_reload [b; a] = Ok [a; b] /\ a <> b.
-Proof. exact cds_equal_keys_refuted. Qed.
-Print Assumptions C10_cds_order_equal_keys_refuted.
+(* the witness of the repaired finding equal_key_genes_order: [10:40](+) and [10:40](-) have equal keys; in either
+   arrival order the stored list is the arrival order and is re-read as itself (replaces
+   C10_cds_order_equal_keys_refuted: with bisect_left the stored order flipped on every reload) *)
+Theorem C10_cds_order_equal_keys_repaired :
+  exists a b, feature_key a = feature_key b /\ cds_reload [a; b] = Ok [a; b] /\ cds_reload [b; a] = Ok [b; a] /\ a <> b.
+Proof. exact cds_equal_keys_repaired. Qed.
+Print Assumptions C10_cds_order_equal_keys_repaired.
 
 (* ---- non-vacuity ---- *)
 Example C10_ex_loc_codec :
